@@ -478,7 +478,7 @@ AfterL(p, l, lbl, c) ==
       [] lbl = "eun" -> IF l.cont = "ok" THEN Done(l, TRUE, "some", l.hit)
                         ELSE IF l.tfd THEN Go(l, "ecl3") ELSE IF l.wcont = "esk" \/ (l.wcont = "rep" /\ l.hit # "") THEN Go(l, "ecl4") ELSE Done(l, FALSE, "err", "")
       [] lbl = "ecl3" -> IF l.wcont = "esk" \/ (l.wcont = "rep" /\ l.hit # "") THEN Go([l EXCEPT !.tfd = FALSE], "ecl4") ELSE Done([l EXCEPT !.tfd = FALSE], FALSE, "err", "")
-      [] lbl = "ecl4" -> Done(l, FALSE, "err", "")
+      [] lbl = "ecl4" -> Done([l EXCEPT !.hit = "", !.fd = ""], FALSE, "err", "")
       \* application epilogue
       [] lbl = "ms1" -> IF ok THEN Go(l, "ms2") ELSE Fail(l)
       [] lbl = "ms2" -> Go(l, "ms3")            \* (a failed flush panics: not a result the model continues from)
@@ -725,6 +725,29 @@ StepReplaceStores == [][last'.e = "sys" /\ last'.api = "gou" /\ last'.call \in {
                           LET q == last'.p IN
                           /\ (loc[q].wcont = "rep") = (last'.call = "rename")
                           /\ (last'.call = "rename" => AbsIn(fs', Root, last'.path2.n) = loc[q].op.val)]_vars
+\* C20 at design level: the descriptors (files and directory streams) the library itself holds open in the middle of a call.  The
+\* application's own temporary file (plain set / put: labels a3, a4; the epilogue d1..d3) is not the library's; ensure's temporary file
+\* and the one handed to set_temp_file / put_temp_file are.  `hit` is the handle that will be returned (or the old file of a Replace);
+\* during a lookup `fd` is that same descriptor.
+LibFdCount(p) ==
+    LET l == loc[p] api == l.op.api IN
+    IF pc[p] \in {"idle", "ret"} THEN 0 ELSE
+      (IF l.dfd # "" THEN 1 ELSE 0)
+    + (IF l.hit # "" THEN 1 ELSE 0)
+    + (IF l.fd # "" /\ (l.fd # l.hit \/ pc[p] \in {"eg2", "eg3", "ecl2"}) THEN 1 ELSE 0)
+    + (IF pc[p] \in {"ms2", "ms3"} THEN 1 ELSE 0)
+    + (IF l.tfd /\ (EnsureLike(api) \/ (TempFileApi(api) /\ pc[p] \notin {"a3", "a4"})) THEN 1 ELSE 0)
+\* never more than two at once; three only while an ensure / get_or_update that already holds its return value runs a maintenance
+\* (directory stream + the entry being re-stamped + the pre-opened return value)
+InvFdBound == \A p \in Procs : LibFdCount(p) <= (IF loc[p].dfd # "" /\ loc[p].fd # "" /\ EnsureLike(loc[p].op.api) THEN 3 ELSE 2)
+\* nothing stays open when a call returns, other than the handle it returns
+InvNoResidue == \A p \in Procs : pc[p] = "ret" =>
+                    LET l == loc[p] IN
+                    /\ l.dfd = ""
+                    /\ (l.fd = "" \/ (p \in DOMAIN aux.rets /\ aux.rets[p].ok /\ aux.rets[p].res = "some" /\ l.fd = aux.rets[p].hit))
+                    /\ (l.hit = "" \/ (p \in DOMAIN aux.rets /\ aux.rets[p].ok /\ aux.rets[p].res = "some" /\ l.hit = aux.rets[p].hit))
+                    /\ ~(l.tfd /\ (EnsureLike(l.op.api) \/ TempFileApi(l.op.api)))
+
 \* C18 at design level (FaultBudget > 0).  No temporary file made for a finished operation of a live participant is left
 \* behind, unless the failing call was the very unlink that should have removed it:
 TempNamesOf(p) == {TmpNameL(p, [opi |-> i]) : i \in 1..Len(Prog[p])}
